@@ -172,6 +172,12 @@ func runC01(r *Run) {
 	rec := &recStrategy{inner: inner, s: s}
 	var lim core.Limit
 	var script *scriptLimit
+	var settable *limit.SettableLimit
+	type outsideSet struct {
+		after time.Duration
+		v     int
+	}
+	var outside []outsideSet
 	switch mode {
 	case 0:
 		n := 1 + t.Intn(8, "traj-len")
@@ -181,6 +187,17 @@ func runC01(r *Run) {
 			script.vals = append(script.vals, v)
 		}
 		lim = script
+		if t.Chance(25, "settable-limit") {
+			settable = limit.NewSettableLimit("settable", initial, nil)
+			lim = settable
+		}
+		// the estimate is also changed from outside the limiter (an operator, another limiter sharing the limit):
+		// what the gate enforces is what the strategy was last told, at the close of a window
+		if settable != nil || t.Chance(35, "limit-set-from-outside") {
+			for i, n := 0, 1+t.Intn(3, "outside-sets"); i < n; i++ {
+				outside = append(outside, outsideSet{after: []time.Duration{0, 1, 2, 1000, 2000000}[t.Intn(5, "outside-after")], v: []int{1, 2, 0, 3, 6, -1, 40}[t.Intn(7, "outside-v")]})
+			}
+		}
 	case 1:
 		lim = limit.NewAIMDLimit("aimd", initial, []float64{0.5, 0.9, 0.25}[t.Intn(3, "backoff")], 1+t.Intn(2, "inc"), nil)
 	case 2:
@@ -287,6 +304,22 @@ func runC01(r *Run) {
 				tk.End(nil)
 			}
 		}))
+	}
+	if len(outside) > 0 {
+		r.Probe("estimate_changed_from_outside")
+		r.Fault("F-limit:outside")
+		s.Go("operator", func(tk *Task) {
+			for _, o := range outside {
+				tk.Sleep(o.after)
+				if settable != nil {
+					settable.SetLimit(o.v)
+				} else {
+					script.mu.Lock()
+					script.cur = o.v
+					script.mu.Unlock()
+				}
+			}
+		})
 	}
 	s.OnStable = func() {
 		// conservation at stable points: nobody is inside an operation
